@@ -1486,7 +1486,25 @@ def own5(units, R):
         if not rel:
             continue
         cfg = fn.cfg()
-        tcache = field_cache(u, fn, 'type')
+        tcache = dict(field_cache(u, fn, 'type'))
+        # a type word read into a local before the function stores to ->type at all (old_type = item->type; ... item->type = ...): the
+        # local describes the node as it was when its payload pointers were saved
+        for d_ in fn.locals():
+            if d_['d'] in tcache:
+                continue
+            asg_ = [a_ for a_ in assignments(fn) if is_ref(a_['l']) and strip_casts(a_['l'])['d'] == d_['d']]
+            defs_ = [a_['r'] for a_ in asg_ if const_val(a_['r']) is None] + \
+                ([d_['init']] if 'init' in d_ and const_val(d_['init']) is None and not d_['init'].get('null') else [])
+            if len(defs_) != 1 or any(a_['op'] != '=' for a_ in asg_):
+                continue
+            r_ = strip_casts(defs_[0])
+            if r_.get('k') == 'mem' and r_.get('arrow') and r_['f'] == 'type' and strip_casts(r_['b']).get('k') == 'ref':
+                dn_ = [cfg.node_of_expr(a_['id']) for a_ in asg_ if a_['r'] is defs_[0]]
+                stores_ = [m_.id for m_ in cfg.nodes for ev_ in node_effects(m_)
+                           if ev_.kind == 'store' and is_mem(ev_.lhs, 'type') and
+                           expr_str(strip_casts(strip_casts(ev_.lhs)['b'])) == expr_str(strip_casts(r_['b']))]
+                if dn_ and dn_[0] is not None and not any(dn_[0].id in cfg.reachable(m_) for m_ in stores_):
+                    tcache[d_['d']] = r_
         for (c, e, deep) in rel:
             n += 1
             X = expr_str(strip_casts(e['b']))
